@@ -67,15 +67,17 @@ def nanTrigger (vs : List Value) : String :=
 
 def step (_ : Unit) (ws : List String) : Unit × String × String × String :=
   match ws with
-  | "agg" :: fn :: toks =>
+  | "agg" :: fn :: rest =>
+    let (toks, oracle) := splitOracle rest
     match toks.mapM parseValue with
     | some vs =>
-      let E := mkEnv []
+      let E := mkEnv oracle
       match evalAgg E fn vs with
       | some r => ((), obsValue r, specAgg fn vs, if fn.endsWith "d" then nanTrigger vs else "")
       | none => ((), "bad-op", "-", "")
     | none => ((), "bad-op", "-", "")
-  | "group" :: toks =>
+  | "group" :: rest =>
+    let (toks, _) := splitOracle rest
     match toks.mapM parseValue with
     | some vs =>
       if Spec.mixedZeros vs then ((), "unspec", "-", "")
